@@ -446,10 +446,13 @@ def main(argv=None):
         nsamp = 0
         for cut, v, obs in res.get('results', []):
             sample = None
-            if cut[2] and nsamp < 1 and v is None and obs:
+            if cut[2] and nsamp < 1 and v is None and obs and cut[1] is not None and \
+                    (cut[3] >= 1 or len(ctx.rr.committed) <= 1) and cut[1] > 60:
                 nsamp += 1
-                sample = dict(history=name, cut=[cut[0], cut[1]], returned=cut[3], recovered_prefix=obs.get('n'),
-                              pos=obs.get('pos'))
+                sample = dict(history=name, transactions=len(hist), commits=len(ctx.rr.committed),
+                              cut=dict(raw_event=cut[0], bytes_of_that_write=cut[1]), commits_returned_before_cut=cut[3],
+                              recovered_prefix_n=obs.get('n'), pos_after_reopen=obs.get('pos'),
+                              data_fs_after_reopen_bytes=obs.get('after_len'))
             ck.case([ctx.hid, cut[0], cut[1]], cut[2], sample)
             if obs.get('n') is not None:
                 ck.count('recovered_n=%d' % obs['n'])
